@@ -3,6 +3,7 @@
 //! The same case lines are fed to the extracted Coq model (extract/modelrun.ml).
 use std::io::{BufRead, Write};
 
+mod c01;
 mod c02;
 mod c03;
 mod c04;
@@ -64,6 +65,9 @@ fn run_lines() {
             "uni" => c16::uni(&mut t),
             "serve" => c16::serve(&mut t),
             "srv" => c05::serve(&mut t),
+            "crdt" => c01::crdt(&mut t),
+            "crdtsim" => c01::crdtsim(&mut t),
+            "cluster" => c01::cluster(&mut t),
             "crash" => c06::crash(&mut t),
             "ltx" => c07::ltx(&mut t),
             "ctx" => c07::ctx(&mut t),
